@@ -1,10 +1,12 @@
 package main
 
 import (
+	"bytes"
 	"encoding/binary"
 	"fmt"
 	"math"
 	"net/netip"
+	"os"
 	"runtime"
 	"sync"
 	"sync/atomic"
@@ -59,6 +61,13 @@ func runC20(c *Ctx) {
 	R := c.R
 	R.Rule = "every Date (65536) round trip; every Date32 day of 1900-01-01..2299-12-31 x 29 fixed-offset zones (-12h..+14h, +05:30, -03:30) x {00:00:00, 12:00:00, 23:59:59} (sampled in quick); DateTime seconds (2^20 sampled; all 2^32 in thorough); DateTime64 at each precision 0..9 over boundary and random instants of its documented range; wide-integer helpers on boundary+random ints; IPv4 (sampled; all 2^32 in thorough); Interval.Add for every scale. non-trivial = not the zero value; distinct by (function, arguments)."
 	r := c.Rng
+	if os.Getenv("VERIF_BUILD") == "purego" {
+		// the portable codecs go through the 128/256-bit wire helpers (binPutUInt128/256, binUInt128/256), the default
+		// build does not: only that section is repeated in the purego build
+		c20WideWire(c, r)
+		return
+	}
+	c20WideWire(c, r.Fork())
 	c20Date(c, r)
 	c20Date32(c, r)
 	c20DateTime(c, r)
@@ -539,5 +548,97 @@ func c20Interval(c *Ctx, r *Rng) {
 			}
 		}
 		R.CountN("interval:"+s.name, len(ns))
+	}
+}
+
+// 128/256-bit integers and decimals on the wire: the bytes are the little-endian image of the number (words in order of
+// significance), and decoding them gives the number back — through the columns and through Buffer.PutUInt128 / Reader.UInt128.
+// The words are chosen pairwise different, so that an exchange of any two of them shows.
+func c20WideWire(c *Ctx, r *Rng) {
+	R := c.R
+	n := 300
+	if c.Thorough {
+		n = 100000
+	}
+	words := func(i int) [4]uint64 {
+		switch i {
+		case 0:
+			return [4]uint64{1, 2, 3, 4}
+		case 1:
+			return [4]uint64{0, 1, 0, 0} // 2^64
+		case 2:
+			return [4]uint64{math.MaxUint64, math.MaxUint64, 0, 0} // 2^128-1
+		case 3:
+			return [4]uint64{0, 0, 1, 0} // 2^128
+		case 4:
+			return [4]uint64{0, 1 << 63, math.MaxUint64, math.MaxUint64} // sign-extended Int128 minimum
+		case 5:
+			return [4]uint64{0, 0, 0, 1 << 63}
+		}
+		return [4]uint64{r.U64(), r.U64(), r.U64(), r.U64()}
+	}
+	le := func(ws []uint64) []byte {
+		var b []byte
+		for _, w := range ws {
+			b = binary.LittleEndian.AppendUint64(b, w)
+		}
+		return b
+	}
+	for i := 0; i < n; i++ {
+		w := words(i)
+		cs := map[string]any{"words_low_to_high": []string{fmt.Sprintf("%#x", w[0]), fmt.Sprintf("%#x", w[1]), fmt.Sprintf("%#x", w[2]), fmt.Sprintf("%#x", w[3])}, "build": os.Getenv("VERIF_BUILD")}
+		R.Case(fmt.Sprintf("widewire|%x|%x|%x|%x", w[0], w[1], w[2], w[3]), true)
+		R.Count("shape:wide-wire")
+		u128 := proto.UInt128{Low: w[0], High: w[1]}
+		u256 := proto.UInt256{Low: proto.UInt128{Low: w[0], High: w[1]}, High: proto.UInt128{Low: w[2], High: w[3]}}
+		type tc struct {
+			name string
+			col  proto.Column
+			want []byte
+			back func(col proto.Column) bool
+		}
+		c1, c2, c3, c4, c5, c6 := new(proto.ColUInt128), new(proto.ColInt128), new(proto.ColDecimal128), new(proto.ColUInt256), new(proto.ColInt256), new(proto.ColDecimal256)
+		c1.Append(u128)
+		c2.Append(proto.Int128(u128))
+		c3.Append(proto.Decimal128(u128))
+		c4.Append(u256)
+		c5.Append(proto.Int256(u256))
+		c6.Append(proto.Decimal256(u256))
+		cases := []tc{
+			{"UInt128", c1, le(w[:2]), func(x proto.Column) bool { return x.(*proto.ColUInt128).Row(0) == u128 }},
+			{"Int128", c2, le(w[:2]), func(x proto.Column) bool { return x.(*proto.ColInt128).Row(0) == proto.Int128(u128) }},
+			{"Decimal128", c3, le(w[:2]), func(x proto.Column) bool { return x.(*proto.ColDecimal128).Row(0) == proto.Decimal128(u128) }},
+			{"UInt256", c4, le(w[:]), func(x proto.Column) bool { return x.(*proto.ColUInt256).Row(0) == u256 }},
+			{"Int256", c5, le(w[:]), func(x proto.Column) bool { return x.(*proto.ColInt256).Row(0) == proto.Int256(u256) }},
+			{"Decimal256", c6, le(w[:]), func(x proto.Column) bool { return x.(*proto.ColDecimal256).Row(0) == proto.Decimal256(u256) }},
+		}
+		for _, k := range cases {
+			var buf proto.Buffer
+			k.col.EncodeColumn(&buf)
+			if !bytes.Equal(buf.Buf, k.want) {
+				c20Violate(c, "wide-wire-image", fmt.Sprintf("%s: encoded as %x, the little-endian image is %x", k.name, buf.Buf, k.want), cs)
+				continue
+			}
+			// written through the vectored path as well
+			var sink bytes.Buffer
+			wr := proto.NewWriter(&sink, new(proto.Buffer))
+			k.col.WriteColumn(wr)
+			if _, err := wr.Flush(); err != nil || !bytes.Equal(sink.Bytes(), k.want) {
+				c20Violate(c, "wide-wire-image", fmt.Sprintf("%s: WriteColumn gave %x, the little-endian image is %x", k.name, sink.Bytes(), k.want), cs)
+				continue
+			}
+			k.col.Reset()
+			if err := k.col.DecodeColumn(proto.NewReader(bytes.NewReader(k.want)), 1); err != nil || k.col.Rows() != 1 || !k.back(k.col) {
+				c20Violate(c, "wide-wire-decode", fmt.Sprintf("%s: decoding the little-endian image %x does not give the number back (err=%v)", k.name, k.want, err), cs)
+			}
+		}
+		var b proto.Buffer
+		b.PutUInt128(u128)
+		if !bytes.Equal(b.Buf, le(w[:2])) {
+			c20Violate(c, "wide-wire-image", fmt.Sprintf("Buffer.PutUInt128: %x, the little-endian image is %x", b.Buf, le(w[:2])), cs)
+		}
+		if got, err := proto.NewReader(bytes.NewReader(le(w[:2]))).UInt128(); err != nil || got != u128 {
+			c20Violate(c, "wide-wire-decode", fmt.Sprintf("Reader.UInt128 of %x = %+v (err=%v)", le(w[:2]), got, err), cs)
+		}
 	}
 }
